@@ -3,7 +3,7 @@
 From Coq Require Import List ZArith.
 From Coq.Strings Require Import Byte.
 From GI Require Import Lib.Bytes Gen.CacheConsts Cache.CacheEntry Cache.CacheEntryFacts Cache.Cache Cache.CacheSeqFacts
-  Cache.CacheFault Cache.CacheHolds Cache.CacheHoldsFacts.
+  Cache.CacheFault Cache.CacheHolds Cache.CacheHoldsFacts Cache.CacheFd Cache.CacheFdFacts.
 Import ListNotations.
 
 Theorem C05_entry_roundtrip : forall id out size tm,
@@ -97,3 +97,40 @@ Theorem C05_put_holds_on_true : forall (H : bytes -> bytes),
   c05_put_holds_on H fs id chunks tm = true.
 Proof. exact c05_put_holds_on_true. Qed.
 Print Assumptions C05_put_holds_on_true.
+
+(* descriptors: whatever the files hold and whatever its operations answer, a lookup that returns has
+   closed every file it opened -- lookups cannot use up the descriptors later lookups need *)
+Theorem C05_lookups_fd_balanced : forall (H : bytes -> bytes) id b fs,
+  (fd_leak b (get_prog id) fs = Some 0%nat \/ fd_leak b (get_prog id) fs = None) /\
+  (fd_leak b (get_file_prog id) fs = Some 0%nat \/ fd_leak b (get_file_prog id) fs = None) /\
+  (fd_leak b (get_bytes_prog H id) fs = Some 0%nat \/ fd_leak b (get_bytes_prog H id) fs = None).
+Proof. exact lookups_fd_balanced. Qed.
+Print Assumptions C05_lookups_fd_balanced.
+
+(* every program of the API closes what it opens whatever results its operations deliver *)
+Theorem C05_api_closes_all : forall (H : bytes -> bytes) id rd chunks tm out,
+  closes_all [] (put_prog H id rd tm) /\ closes_all [] (put_bytes_prog H id chunks tm) /\
+  closes_all [] (get_prog id) /\ closes_all [] (get_file_prog id) /\ closes_all [] (get_bytes_prog H id) /\
+  closes_all [] (output_file_prog out).
+Proof.
+  intros H id rd chunks tm out.
+  exact (conj (closes_put H id rd tm) (conj (closes_put_bytes H id chunks tm) (conj (closes_get id)
+    (conj (closes_get_file id) (conj (closes_get_bytes H id) (closes_output_file out)))))).
+Qed.
+Print Assumptions C05_api_closes_all.
+
+(* PutBytes then lookups: PutBytes is Put from an in-memory source *)
+Theorem C05_put_bytes_get : forall (H : bytes -> bytes),
+  (forall x, length (H x) = hash_size_n) ->
+  forall chunks fs id tm,
+  let d := concat chunks in
+  length id = hash_size_n ->
+  (0 <= tm < int64_lim)%Z -> (Z.of_nat (length d) < int64_lim)%Z ->
+  (forall c, fs (DatP (H d)) = Some c -> H c = H d -> c = d) ->
+  exists fs',
+    run_seq (put_bytes_prog H id chunks tm) fs = (fs', PutOk (H d) (length d)) /\
+    get_bytes H fs' id = Found d (H d) (Z.of_nat (length d)) tm /\
+    get_file fs' id = Found (DatP (H d)) (H d) (Z.of_nat (length d)) tm /\
+    fs' (DatP (H d)) = Some d.
+Proof. exact put_get. Qed.
+Print Assumptions C05_put_bytes_get.
